@@ -58,7 +58,9 @@ Short(it, P) == P = "ledger" \/ ShortestHead(it)
 \* Conforms(S, s, it, P, path) -> <<>> when ok, otherwise path ++ reason
 RECURSIVE Conf(_,_,_,_,_), ConfSeq(_,_,_,_,_,_), ConfMapFields(_,_,_,_,_,_), ConfTable(_,_,_,_,_,_), FirstAlt(_,_,_,_,_,_)
 Conf(S, s, it, P, path) ==
-  CASE s.k = "ref" -> Conf(S, S[s.a], it, P, Append(path, s.a))
+  \* Plutus data keeps the encoding of the bytes it was decoded from (C04), also when the caller hands such a datum to a builder: what is
+  \* EMITTED for it is held to the CDDL (ledger profile), not to the form a freshly built datum is written in. `fresh` (C17) stays strict.
+  CASE s.k = "ref" -> Conf(S, S[s.a], it, IF P = "write" /\ s.a = "plutus_data" THEN "ledger" ELSE P, Append(path, s.a))
     [] s.k = "any" -> OK
     [] s.k = "uint" -> IF it.mt = 0 /\ Short(it,P) THEN OK ELSE Bad(path, "uint")
     [] s.k = "u32" -> IF it.mt = 0 /\ Short(it,P) /\ Len(ArgN(it)) <= 4 THEN OK ELSE Bad(path, "u32")
@@ -169,5 +171,5 @@ FirstAlt(S, ts, it, P, path, j) == IF j > Len(ts) THEN Bad(path, "no-alt") ELSE
     IF P = "fresh" THEN (IF Conf(S, ts[j], it, "write", path) = OK THEN Conf(S, ts[j], it, P, Append(path, j)) ELSE FirstAlt(S, ts, it, P, path, j+1)) ELSE
     LET r == Conf(S, ts[j], it, P, Append(path, j)) IN IF r = OK THEN OK ELSE
     IF j = Len(ts) THEN (IF Len(ts) = 1 THEN r ELSE Bad(path, "no-alt")) ELSE FirstAlt(S, ts, it, P, path, j+1)
-Conforms(S, name, it, P) == Conf(S, S[name], it, P, <<name>>)
+Conforms(S, name, it, P) == Conf(S, S[name], it, IF P = "write" /\ name = "plutus_data" THEN "ledger" ELSE P, <<name>>)
 ====
